@@ -59,27 +59,28 @@ fn parse_tier(s: &str) -> Tier {
 }
 
 fn default_runs(s: Scenario, t: Tier) -> u64 {
+    // sized from measured throughput on 16 workers: quick 20-40 s, thorough 10-15 min
     match (s, t) {
-        (Scenario::Crashfree, Tier::Quick) => 4000,
-        (Scenario::Crashfree, Tier::Thorough) => 60000,
-        (Scenario::Wellformed, Tier::Quick) => 4000,
-        (Scenario::Wellformed, Tier::Thorough) => 60000,
-        (Scenario::HistoryIndependence, Tier::Quick) => 3000,
-        (Scenario::HistoryIndependence, Tier::Thorough) => 40000,
-        (Scenario::SessionReset, Tier::Quick) => 4000,
-        (Scenario::SessionReset, Tier::Thorough) => 60000,
-        (Scenario::LearnedDurability, Tier::Quick) => 3000,
-        (Scenario::LearnedDurability, Tier::Thorough) => 40000,
-        (Scenario::UserfileFaults, Tier::Quick) => 4000,
+        (Scenario::Crashfree, Tier::Quick) => 20000,
+        (Scenario::Crashfree, Tier::Thorough) => 200000,
+        (Scenario::Wellformed, Tier::Quick) => 20000,
+        (Scenario::Wellformed, Tier::Thorough) => 180000,
+        (Scenario::HistoryIndependence, Tier::Quick) => 12000,
+        (Scenario::HistoryIndependence, Tier::Thorough) => 160000,
+        (Scenario::SessionReset, Tier::Quick) => 60000,
+        (Scenario::SessionReset, Tier::Thorough) => 800000,
+        (Scenario::LearnedDurability, Tier::Quick) => 8000,
+        (Scenario::LearnedDurability, Tier::Thorough) => 140000,
+        (Scenario::UserfileFaults, Tier::Quick) => 12000,
         (Scenario::UserfileFaults, Tier::Thorough) => 1500, // base histories of the enumeration
-        (Scenario::Reconfigure, Tier::Quick) => 3000,
-        (Scenario::Reconfigure, Tier::Thorough) => 40000,
-        (Scenario::FixedRules, Tier::Quick) => 6000,
-        (Scenario::FixedRules, Tier::Thorough) => 120000,
-        (Scenario::Reph, Tier::Quick) => 6000,
-        (Scenario::Reph, Tier::Thorough) => 120000,
-        (Scenario::KarOrderEquiv, Tier::Quick) => 6000,
-        (Scenario::KarOrderEquiv, Tier::Thorough) => 120000,
+        (Scenario::Reconfigure, Tier::Quick) => 25000,
+        (Scenario::Reconfigure, Tier::Thorough) => 350000,
+        (Scenario::FixedRules, Tier::Quick) => 200000,
+        (Scenario::FixedRules, Tier::Thorough) => 1000000,
+        (Scenario::Reph, Tier::Quick) => 200000,
+        (Scenario::Reph, Tier::Thorough) => 1000000,
+        (Scenario::KarOrderEquiv, Tier::Quick) => 200000,
+        (Scenario::KarOrderEquiv, Tier::Thorough) => 1000000,
     }
 }
 
